@@ -183,6 +183,8 @@ def r7_var_uniform(c, facts, rule='C05.R7'):
     for r in rows:
         fn = facts.fn(r['fn'])
         pol, conditional = c01.polarity(r, fn.hir['body'] if fn is not None else None)
+        if pol is None and not conditional:
+            pol = c01.polarity_mir(facts, r)
         v = T.pred.get(r['pred'], {}).get('Var')
         if pol is None or v not in (K.TRUE, K.FALSE):
             unk += 1
